@@ -125,6 +125,9 @@ ZRoundWhy(r) ==
            s1 == StartOfDayC(z, c[1] + 1)
        IN IF s0 = <<>> \/ s1 = <<>> \/ ~InTsRange(s0) THEN ""
           ELSE IF ~InTsRange(s1) /\ r.res.st = "err" THEN ""    \* last day of the range: the day length is not computable
+          \* a civil day interrupted by a fold across midnight (St. John's 1987-10-24: 00:01 -> 23:01): the
+          \* instant lies outside [start of its day, start of the next): the wording does not settle this
+          ELSE IF ~(TLe(s0, t) /\ TLt(t, s1)) THEN ""
           ELSE LET x == InstDiffNs(s0, t)  len == InstDiffNs(s0, s1)
                    up == RoundOk(r.mode, x, len, len, BOf(1))
                    e == IF up /\ x # BZero THEN (IF InTsRange(s1) THEN s1 ELSE <<>>) ELSE s0
